@@ -140,12 +140,14 @@ namespace avel {
                 reinterpret_cast<char*>(aligned_allocation) -
                 reinterpret_cast<char*>(unaligned_allocation);
 
-            auto* offset_location =
-                reinterpret_cast<std::size_t*>(
-                    reinterpret_cast<char*>(aligned_allocation) + elements_size
-                );
-
-            new(offset_location) std::size_t{alignment_offset};
+            // The end of the elements need not be aligned suitably for a
+            // std::size_t so the offset is copied byte-wise, as it is read
+            // in deallocate
+            std::memcpy(
+                reinterpret_cast<char*>(aligned_allocation) + elements_size,
+                &alignment_offset,
+                sizeof(std::size_t)
+            );
 
             return reinterpret_cast<pointer>(aligned_allocation);
 
